@@ -558,6 +558,14 @@ fn gen_cmds(r: &mut Rng, report: bool) -> String {
     }).collect::<Vec<_>>().join("+")
 }
 
+fn report_fields_of(p: usize) -> &'static [&'static str] {
+    match p { 0 => &["Report.acked", "Report.rtt"], 1 => &["Report.loss", "Report.sacked", "Report.inflight"], 2 => &["Report.x"],
+        3 => &["Report.one"], 4 => &["Report.two", "Report.three"], _ => &["Report.m"] }
+}
+
+/// Structured generation: tracks which (address, flow id) pairs are live so that most
+/// measurements reach a handler, most handle commands name programs of the compiled set, and
+/// most field lookups use the scope of the program the report carries.
 pub fn gen_case(r: &mut Rng, adversarial: bool, faults: bool) -> String {
     // algorithms
     let nreg = r.below(4) as usize;
@@ -571,54 +579,95 @@ pub fn gen_case(r: &mut Rng, adversarial: bool, faults: bool) -> String {
     }
     // programs per instance (program 5 = uncompilable, rare)
     let mut ip = vec![];
+    let mut offered: Vec<usize> = vec![];
     for i in &insts {
         let mut ps: Vec<usize> = vec![];
         for p in [0usize, 1, 2, 3, 4, 6] { if r.chance(1, 2) { ps.push(p); } }
         if ps.contains(&3) && ps.contains(&4) { ps.retain(|x| *x != 4); }   // one map cannot hold a name twice
         if *i == 0 && ps.is_empty() { ps.push(0); }
-        if r.chance(1, 60) { ps.push(5); }
+        if r.chance(1, 80) { ps.push(5); }
+        offered.extend(ps.iter().cloned());
         ip.push(format!("{}:{}", i, ps.iter().map(|p| p.to_string()).collect::<Vec<_>>().join(",")));
     }
-    let beh = format!("new={} rep={}", gen_cmds(r, false), gen_cmds(r, true));
+    offered.retain(|p| *p != 5);
+    if offered.is_empty() { offered.push(0); }
+    // behaviour: usually select an offered program at creation and read its fields on reports
+    let main = *r.pick(&offered);
+    let mname = PROGS[main].0;
+    let mut newc: Vec<String> = vec![];
+    let mut repc: Vec<String> = vec![];
+    if r.chance(5, 6) { let nf = r.below(3) as usize; newc.push(format!("SP:{}:{}", mname, gen_ctl_fields(r, mname, nf))); }
+    if r.chance(1, 3) { let g = gen_cmds(r, false); if g != "-" { newc.push(g); } }
+    for _ in 0..r.below(3) {
+        let f = if r.chance(4, 5) { *r.pick(report_fields_of(main)) } else { *r.pick(&PROBE_NAMES) };
+        repc.push(format!("GR:{}:{}", mname, f));
+    }
+    if r.chance(1, 3) { let nf = r.range(1, 3) as usize; repc.push(format!("UF:{}:{}", if mname == "dup" { "alpha" } else { mname }, gen_ctl_fields(r, mname, nf))); }
+    if r.chance(1, 4) { let o = *r.pick(&offered); let nf = r.below(3) as usize; repc.push(format!("SP:{}:{}", PROGS[o].0, gen_ctl_fields(r, PROGS[o].0, nf))); }
+    if r.chance(1, 4) { let g = gen_cmds(r, true); if g != "-" { repc.push(g); } }
+    let beh = format!("new={} rep={}", if newc.is_empty() { "-".to_string() } else { newc.join("+") }, if repc.is_empty() { "-".to_string() } else { repc.join("+") });
     // events
-    let nev = r.range(1, 14);
+    let nev = r.range(2, 16);
     let addrs = [1u8, 2, 3];
     let sids = [1u32, 2, 3, 0x10];
-    let algnames = ["-", "reno", "renoX", "cubic", "dflt", "ren", "renoXY", "zzz", "renoreno0123456789012345678901234567890123456789012345678901234"];
+    let algnames = ["-", "-", "reno", "renoX", "cubic", "dflt", "ren", "renoXY", "zzz", "", "renoreno0123456789012345678901234567890123456789012345678901234"];
     let mut evs = vec![];
-    let mut total_sends_guess = 0usize;
+    let mut live: Vec<(u8, u32)> = vec![];
+    let mut sends_guess = 0usize;
     for _ in 0..nev {
-        if r.chance(1, 15) { evs.push("E".to_string()); continue; }
-        if r.chance(1, 40) { evs.push("S".to_string()); continue; }
+        if r.chance(1, 20) { evs.push("E".to_string()); continue; }
+        if r.chance(1, 60) { evs.push("S".to_string()); continue; }
         let a = *r.pick(&addrs);
-        let nm = if r.chance(1, 40) { r.range(10, 14) } else { r.range(1, 4) };
+        let nm = if r.chance(1, 50) { r.range(10, 14) } else { r.range(1, 4) };
         let mut ms: Vec<String> = vec![];
         for _ in 0..nm {
             // raw bytes may swallow what follows them as payload: keep runtime uids (which differ
             // between the implementation and the model's canonical numbering) out of that payload
             let after_raw = ms.iter().any(|m| m.starts_with("RAW"));
-            let sid = *r.pick(&sids);
-            let m = match r.below(if adversarial { 13 } else { 10 }) {
-                0 => format!("RDY:{:x}", r.below(9)),
-                1 | 2 | 3 => { total_sends_guess += 4; format!("CR:{:x}:{}:{:x}:{:x}", sid, r.pick(&algnames), r.u32b(), r.u32b()) }
-                4..=7 => {
-                    let n = r.below(5) as usize;
-                    let u = if !after_raw && r.chance(5, 6) { format!("p{}", r.pick(&[0usize, 1, 2, 3, 4, 6])) } else { format!("x{:x}", 0xF000_0000u32 + r.below(100) as u32) };
-                    let nf = if r.chance(1, 12) { r.below(6) } else { n as u64 };
-                    format!("MS:{:x}:{}:{:x}:{}", sid, u, nf, if n == 0 { "-".to_string() } else { (0..n).map(|_| format!("{:x}", r.u64b())).collect::<Vec<_>>().join(",") })
+            let mine: Vec<u32> = live.iter().filter(|(x, _)| *x == a).map(|(_, s)| *s).collect();
+            let roll = r.below(100);
+            let m = if roll < 6 {
+                live.retain(|(x, _)| *x != a); sends_guess += 4;
+                format!("RDY:{:x}", r.below(9))
+            } else if roll < 32 {
+                let sid = if !mine.is_empty() && r.chance(1, 4) { *r.pick(&mine) } else { *r.pick(&sids) };
+                if !live.contains(&(a, sid)) { live.push((a, sid)); }
+                sends_guess += 5;
+                format!("CR:{:x}:{}:{:x}:{:x}", sid, r.pick(&algnames), r.u32b(), r.u32b())
+            } else if roll < 78 {
+                // a measurement: mostly for a live flow of this address, mostly from the selected program
+                let sid = if !mine.is_empty() && r.chance(5, 6) { *r.pick(&mine) } else { *r.pick(&sids) };
+                let n = if r.chance(1, 10) { r.below(20) } else { r.range(1, 4) } as usize;
+                let u = if after_raw { format!("x{:x}", 0xF000_0000u32 + r.below(100) as u32) }
+                    else if r.chance(3, 4) { format!("p{}", main) }
+                    else if r.chance(2, 3) { format!("p{}", r.pick(&[0usize, 1, 2, 3, 4, 6])) }
+                    else { format!("x{:x}", 0xF000_0000u32 + r.below(100) as u32) };
+                let nf = if r.chance(1, 15) { r.below(6) } else { n as u64 };
+                if nf == 0 { live.retain(|x| *x != (a, sid)); }
+                sends_guess += 1;
+                format!("MS:{:x}:{}:{:x}:{}", sid, u, nf, if n == 0 { "-".to_string() } else { (0..n).map(|_| format!("{:x}", r.u64b())).collect::<Vec<_>>().join(",") })
+            } else if roll < 86 {
+                let sid = if !mine.is_empty() && r.chance(3, 4) { *r.pick(&mine) } else { *r.pick(&sids) };
+                live.retain(|x| *x != (a, sid));
+                format!("MS:{:x}:xf0000001:0:-", sid)
+            } else if !adversarial {
+                format!("RAW:{}", { let t = *r.pick(&[4u8, 6, 7, 9, 255]); let mut b = vec![t, 0, 8 + r.below(6) as u8, 0, 1, 0, 0, 0]; b.extend(r.bytes(8)); hex(&b[..(b[2] as usize).min(b.len())]) })
+            } else {
+                match r.below(8) {
+                    0 | 1 => format!("RAW:{}", { let t = r.below(9); let mut b = vec![t as u8, 0, 8 + r.below(6) as u8, 0, 1, 0, 0, 0]; b.extend(r.bytes(8)); hex(&b[..(b[2] as usize).min(b.len())]) }),
+                    2 => format!("RAW:{}", { let n = r.below(40) as usize; hex(&r.bytes(n.max(1))) }),
+                    3 => format!("RAW:{}", { let t = *r.pick(&[2u8, 3, 4, 6, 255]); let mut b = vec![t, 0, 24, 0]; b.extend(r.bytes(20)); hex(&b) }),
+                    4 => format!("RAW:{}", { let t = *r.pick(&[4u8, 6, 8, 200, 255]); let mut b = vec![t, *r.pick(&[0u8, 0, 1, 255]), 16, 0]; b.extend(r.bytes(12)); hex(&b) }),
+                    5 => format!("RAW:{}", { let n = 1000 + r.below(200) as usize; let mut b = vec![9u8, 0, 8, 0]; b.extend(r.bytes(n)); hex(&b) }),
+                    _ => format!("RAW:{}", { let mut b = vec![*r.pick(&[0u8, 1, 5]), *r.pick(&[0u8, 0, 1]), r.below(40) as u8, 0]; let n = r.below(36) as usize; b.extend(r.bytes(n)); hex(&b) }),
                 }
-                8 => format!("MS:{:x}:xf0000001:0:-", sid),     // close
-                9 => format!("RAW:{}", { let t = r.below(9); let mut b = vec![t as u8, 0, 8 + r.below(6) as u8, 0, 1, 0, 0, 0]; b.extend(r.bytes(8)); hex(&b[..(b[2] as usize).min(b.len())]) }),
-                10 => format!("RAW:{}", { let n = r.below(40) as usize; hex(&r.bytes(n.max(1))) }),
-                11 => format!("RAW:{}", { let t = *r.pick(&[2u8, 3, 4, 6, 255]); let mut b = vec![t, 0, 24, 0]; b.extend(r.bytes(20)); hex(&b) }),
-                _ => format!("RAW:{}", { let mut b = vec![*r.pick(&[0u8, 1, 5]), *r.pick(&[0u8, 1]), r.below(40) as u8, 0]; let n = r.below(36) as usize; b.extend(r.bytes(n)); hex(&b) }),
             };
             ms.push(m);
         }
         evs.push(format!("D{:x}:{}", a, ms.join("+")));
     }
-    let sendfail = if faults && r.chance(2, 3) { format!("{}", r.below(total_sends_guess as u64 + 6)) } else { "-".to_string() };
-    let opts = format!("stop0={} sendfail={}", if r.chance(1, 50) { 1 } else { 0 }, sendfail);
+    let sendfail = if faults && r.chance(1, 3) { format!("{}", r.below(sends_guess as u64 + 4)) } else { "-".to_string() };
+    let opts = format!("stop0={} sendfail={}", if r.chance(1, 60) { 1 } else { 0 }, sendfail);
     format!("{} | {} | {} | {} | {}", algs.join(" "), ip.join(" "), beh, opts, if evs.is_empty() { "-".to_string() } else { evs.join(" ; ") })
 }
 
